@@ -334,7 +334,9 @@ def r4(ctx):
             for c in facts.closures_of(owner):
                 inits.append((st, owner, c))
     for st, owner, c in inits:
-        names = {callee_decl(t).split('::')[-1] for _, t in ctx.calls(c)}
+        if c.parent != owner.path:
+            continue            # closures nested in an initialiser are analysed as part of it
+        names = {callee_decl(t).split('::')[-1] for c2 in [c] + facts.closures_of(c) for _, t in ctx.calls(c2)}
         if 'hash_from_bytes_sha3_512' in names:
             mb, mb_owner = c, owner
         elif 'compress' in names:
@@ -375,31 +377,45 @@ def r4(ctx):
             ok = ok and zipped
         rep.check(ok, 'R-C11-4', 'R-C11-4/blinding-generators', 'generator i = hash_from_bytes_sha3_512("RISTRETTO_MASKING_BASEPOINT_" ++ decimal(i)), i = 1.. zipped with the array slots',
                   'blinding generators are derived as %s' % det, ctx.where(mb))
-        st2 = [e for e in ctx.eng.bx(cb).events() if e['kind'] == 'store']
+        # the store may sit in the initialiser itself (a `for` loop) or in a closure it hands to for_each: look in every frame
+        st2 = [(fr, e) for fr in ctx.frames(cb) if all(f_.kind != 'call' for f_ in fr.chain()) for e in ctx.eng.bx(fr.body).events() if e['kind'] == 'store']
         ok2 = False
         det2 = ''
         if len(st2) == 1:
-            t = ctx.eng.event_term(cb, st2[0])
-            val = t[3][0]
+            fr2, ev2 = st2[0]
+            b2 = fr2.body
+            t = ctx.eng.event_term(b2, ev2)
+            val = fr2.lift(t[3][0])
             det2 = canon(val)
             same_index = False
-            # arr[i] = point.compress() with (i, point) from enumerate over the uncompressed array
-            place = st2[0]['place']
+            place = ev2['place']
             idxl = [e['l'] for e in place['p'] if e['k'] == 'index']
             if idxl:
-                it = ctx.eng.local(cb, st2[0]['bb'], st2[0]['idx'], idxl[0])
+                # arr[i] = point.compress() with (i, point) from enumerate over the uncompressed array
+                it = fr2.lift(ctx.eng.local(b2, ev2['bb'], ev2['idx'], idxl[0]))
                 same_index = it.tag == 'index' and any(x.tag == 'elem' and x[1] is it[1] for x in walk(val))
-            else:
-                # `for (slot, point) in arr.iter_mut().zip(points)`: the slot written is the zip partner of the point compressed
-                lp2 = [l for l in ctx.loops(cb).values() if st2[0]['bb'] in l.blocks and l.iter_term is not None]
-                z = strip(lp2[-1].iter_term) if lp2 else None
-                if z is not None and z.tag == 'zip' and not ctx.adapters(z) and any(pe['k'] == 'deref' for pe in place['p']):
-                    srcs = [x[1] for x in walk(val) if x.tag == 'elem']
-                    parts = [strip(z[1]), strip(z[2])]
-                    tgt_roots = st2[0]['roots']
-                    point_side = [p_ for p_ in parts if any(strip(s_) is p_ for s_ in srcs)]
-                    slot_side = [p_ for p_ in parts if p_ not in point_side]
-                    same_index = len(point_side) == 1 and len(slot_side) == 1 and bool(tgt_roots) and lp2[-1].driver_only_exit
+            elif [pe['k'] for pe in place['p']] == ['deref']:
+                # `*slot = point.compress()` with (slot, point) the element of zip(arr.iter_mut(), points), in a `for` loop or a
+                # for_each closure: the slot written is the zip partner of the point compressed
+                ptr = fr2.lift(ctx.eng.local(b2, ev2['bb'], ev2['idx'], place['l']))
+                z = None
+                whole = False
+                lp2 = [l for l in ctx.loops(b2).values() if ev2['bb'] in l.blocks and l.iter_term is not None]
+                if lp2:
+                    z = strip(fr2.lift(lp2[-1].iter_term))
+                    whole = lp2[-1].driver_only_exit
+                elif fr2.kind == 'closure' and fr2.parent is not None:
+                    cs = ctx.closure_site(b2)
+                    if cs is not None and not cs[3]['place']['p']:
+                        itz = ctx.eng.applied_to(cs[0], cs[1], cs[3]['place']['l'])
+                        z = strip(fr2.parent.lift(itz)) if itz is not None else None
+                        whole = True
+                if z is not None and z.tag == 'zip' and not ctx.adapters(z):
+                    els = [mk_elem(ctx.eng, z[1]), mk_elem(ctx.eng, z[2])]
+                    slot_k = [k for k in (0, 1) if strip(ptr) is strip(els[k])]
+                    if len(slot_k) == 1:
+                        other = els[1 - slot_k[0]]
+                        same_index = whole and any(x is other or x is strip(other) for x in walk(val))
             ok2 = det2.startswith('compress(each(get_or_init(') and same_index and any(callee_name(t2) == mb_owner.path for _, t2 in ctx.calls(cb))
         rep.check(ok2, 'R-C11-4', 'R-C11-4/compressed-generators', 'compressed[i] = compress(generator[i]) for the same enumerate index over the uncompressed array',
                   'compressed generators are %s' % det2, ctx.where(cb))
